@@ -9,7 +9,7 @@ from ..core.effects import effects
 from ..core.larkfacts import grammar_facts
 from ..core.match import txt
 from ..core.source import AnchorMissing
-from .common import DEC, DECGRAMMAR, ckey, enclosing, fn, returns, stmt_of, where
+from .common import DEC, DECGRAMMAR, case_of, ckey, enclosing, fn, returns, stmt_of, where
 
 PROP = "C05"
 FILES = [DEC, DECGRAMMAR]
@@ -92,6 +92,13 @@ def c05_1(ctx, ss):
     # ModelAlias
     ff, flow = fn(ss, DEC, "DecFileParser._dict_raw_model_aliases")
     rets = [r for r in returns(ff) if isinstance(r.value, ast.DictComp)]
+    if not rets:
+        # the comprehension bound to a local that is returned as it is
+        for r in returns(ff):
+            if isinstance(r.value, ast.Name):
+                ds = [d for d in flow.defs_of(r.value)]
+                if len(ds) == 1 and ds[0].kind == "assign" and isinstance(ds[0].value, ast.DictComp) and isinstance(ds[0].stmt, ast.Assign):
+                    rets = [ast.copy_location(ast.Return(value=ds[0].value), ds[0].stmt)]
     k = ckey(ff, None, "last-wins")
     from ..core.treetypes import TreeTyper
     tt = TreeTyper(gf)
@@ -135,27 +142,28 @@ def c05_1(ctx, ss):
 
 
 def c05_2(ctx, ss, rule="C05.2"):
-    ef = effects(ss)
-    ff, flow = fn(ss, DEC, "DecayModelAliasReplacement._replacement")
-    mf_, mflow = fn(ss, DEC, "DecayModelAliasReplacement.model")
-    rets = returns(ff)
-    if not rets:
-        raise AnchorMissing("_replacement has no return")
-    for r in rets:
-        root = ef.root(flow, r.value)
-        k = ckey(ff, None, "alias-body-owned")
-        if root[0] == "fresh" and root[1] in ("deepcopy",):
-            ctx.holds(rule, k, where(ff, r), "each use of a model alias receives its own deep copy of the aliased model sub-tree", 2)
-        else:
-            # is it copied at the use site instead?
-            uses = [c for c in pf.calls_in(mf_.node) if txt(c.func) == "self._replacement"]
-            copied = uses and all(any(isinstance(p, ast.Call) and txt(p.func) in ("copy.deepcopy", "deepcopy") for p in _ancestors(mf_.node, c)) for c in uses)
-            if copied:
-                ctx.holds(rule, k, where(mf_, uses[0]), "the alias body is deep-copied where it is put into the tree", 2)
-            else:
-                ctx.violation(rule, k, where(ff, r),
-                              f"the transformer returns `{txt(r.value)[:60]}` ({root[0]} {root[1]}): every decay line using the alias shares ONE sub-tree "
-                              "with the transformer's table; the parameter visitor then rewrites it once per use (float('…') of an already converted token → TypeError)")
+    from .c06 import ALIAS_VIEW, alias_lookups
+    # ONE normal form: model() with the lookup helper written out in it
+    v = ss.view(DEC, ALIAS_VIEW)
+    mf_, mflow = fn(v, DEC, "DecayModelAliasReplacement.model")
+    n_l = 0
+    k = ckey(mf_, None, "alias-body-owned")
+    bad = None
+    for r in returns(mf_):
+        val = mflow.expand(r.value)
+        for look, anc in alias_lookups(val):
+            n_l += 1
+            copied = any(isinstance(a, ast.Call) and txt(a.func) in ("copy.deepcopy", "deepcopy") for a in anc)
+            if not copied and bad is None:
+                bad = (r, look)
+    if not n_l:
+        raise AnchorMissing("no read of the alias table found in DecayModelAliasReplacement.model")
+    if bad is None:
+        ctx.holds(rule, k, where(mf_, mf_.node), "each use of a model alias receives its own deep copy of the aliased model sub-tree", 2)
+    else:
+        ctx.violation(rule, k, where(mf_, bad[0]),
+                      f"the transformer puts `{txt(bad[1])[:60]}` itself into the tree: every decay line using the alias shares ONE sub-tree "
+                      "with the transformer's table; the parameter visitor then rewrites it once per use (float('…') of an already converted token → TypeError)")
 
 
 def _ancestors(fnode, node):
@@ -179,39 +187,42 @@ def c05_3(ctx, ss):
         ctx.holds("C05.3", k, where(ff, num[0]), "value child: token.value := float(token.value)", 2)
     else:
         ctx.violation("C05.3", k, where(ff, ff.node), "numeric parameters are not converted by float(<their own token value>)")
-    if len(word) != 1:
-        ctx.violation("C05.3", ckey(ff, None, "word"), where(ff, ff.node), f"expected one store for word parameters, found {len(word)}")
+    if not word:
+        ctx.violation("C05.3", ckey(ff, None, "word"), where(ff, ff.node), "no store for word parameters")
         return
-    w = word[0]
-    # the word store must be in the AttributeError handler of the numeric attempt (token-or-tree idiom)
-    conds = guards.path_conditions(ff.node, w)
-    if not any(kind == "exc" and e.type is not None and txt(e.type) == "AttributeError" for kind, e, pol in conds):
-        ctx.violation("C05.3", ckey(ff, None, "word-branch"), where(ff, w), "the word branch is not the AttributeError fallback of the numeric attempt")
-    ifs = [(flow.expand(e), pol) for kind, e, pol in conds if kind == "if"]
-    val = flow.expand(w.value)
 
-    def is_neg_test(e):
-        return isinstance(e, ast.Compare) and len(e.ops) == 1 and isinstance(e.ops[0], ast.Eq) and txt(e.left) == f"{p}.value[0]" \
-            and isinstance(e.comparators[0], ast.Constant) and e.comparators[0].value == "-"
-
-    def mk(neg):
+    def neg_atom(neg):
         def atom(e):
-            if is_neg_test(e):
+            if isinstance(e, ast.Compare) and len(e.ops) == 1 and isinstance(e.ops[0], ast.Eq) and txt(e.left) == f"{p}.value[0]" \
+                    and isinstance(e.comparators[0], ast.Constant) and e.comparators[0].value == "-":
                 return neg
             if isinstance(e, ast.Call) and txt(e.func) == f"{p}.value.startswith" and e.args and isinstance(e.args[0], ast.Constant) and e.args[0].value == "-":
                 return neg
             return None
         return atom
+    # one case per spelling of the word (`name` / `-name`): the function specialised to the case must store exactly the
+    # looked-up value (negated for `-name`) exactly when the name is defined -- whatever statement shape the source uses
     for neg, key, want in ((False, f"{p}.value", f"self.define_defs[{p}.value]"), (True, f"{p}.value[1:]", f"-self.define_defs[{p}.value[1:]]")):
-        sv = txt(guards.simplify(val, mk(neg)))
-        guards_ = [txt(guards.simplify(e, mk(neg))) for e, pol in ifs if pol]
-        neg_guards = [txt(e) for e, pol in ifs if not pol]
         kk = ckey(ff, None, f"word:{'minus' if neg else 'plain'}")
-        if sv == want and guards_ == [f"{key} in self.define_defs"] and not neg_guards:
-            ctx.holds("C05.3", kk, where(ff, w), f"{'-name' if neg else 'name'}: value := {want} iff {key} is defined", 3)
+        ff2, flow2 = case_of(ss, ff, flow, neg_atom(neg), "minus" if neg else "plain")
+        ws = [s_ for s_ in pf.iter_stmts(ff2.node.body) if isinstance(s_, ast.Assign) and isinstance(s_.targets[0], ast.Attribute) and s_.targets[0].attr == "value"
+              and "children" not in txt(s_.targets[0])]
+        if len(ws) != 1:
+            ctx.violation("C05.3", kk, where(ff, word[0]), f"for a word {'with' if neg else 'without'} leading minus the visitor has {len(ws)} stores; expected one")
+            continue
+        w = ws[0]
+        conds = guards.path_conditions(ff2.node, w)
+        # the word store must be in the AttributeError handler of the numeric attempt (token-or-tree idiom)
+        if not any(kind == "exc" and e.type is not None and txt(e.type) == "AttributeError" for kind, e, pol in conds):
+            ctx.violation("C05.3", ckey(ff, None, "word-branch"), where(ff, word[0]), "the word branch is not the AttributeError fallback of the numeric attempt")
+        ifs = [(txt(flow2.expand(e)), pol) for kind, e, pol in conds if kind == "if"]
+        sv = txt(flow2.expand(w.value))
+        tgt_ok = txt(w.targets[0]) == f"{p}.value"
+        if sv == want and ifs == [(f"{key} in self.define_defs", True)] and tgt_ok:
+            ctx.holds("C05.3", kk, where(ff, word[0]), f"{'-name' if neg else 'name'}: value := {want} iff {key} is defined", 3)
         else:
-            ctx.violation("C05.3", kk, where(ff, w),
-                          f"for a word {'with' if neg else 'without'} leading minus the visitor stores `{sv}` under {guards_ + ['not ' + g for g in neg_guards]}; "
+            ctx.violation("C05.3", kk, where(ff, word[0]),
+                          f"for a word {'with' if neg else 'without'} leading minus the visitor stores `{sv}` into `{txt(w.targets[0])}` under {[('' if pol else 'not ') + c for c, pol in ifs]}; "
                           f"expected `{want}` under ['{key} in self.define_defs']")
     # (d) every child of model_options is visited
     mo, moflow = fn(ss, DEC, "DecayModelParamValueReplacement.model_options")
